@@ -1,6 +1,7 @@
 """C29 — discontiguous chunk allocation keeps the region map consistent (Map32)."""
 from vlib import unit
 from vlib.engine import Case
+from checks import layoutlib
 
 FIRST, LAST = 100, 131
 N = LAST - FIRST + 1
@@ -45,7 +46,7 @@ class Sim:
 
 class Spec(unit.UnitSpec):
     pid = "C29"
-    modules = ["MmtkModel.Props.C29"]
+    modules = ["MmtkModel.Props.C29", "MmtkModel.Props.C29PR"]
     theorems = ["Mmtk.Map32.freeNoLock_avail", "Mmtk.Map32.allocate_avail", "Mmtk.Map32.freeNoLock_unlinks",
                 "Mmtk.Map32.freeNoLock_clears_descriptors", "Mmtk.Map32.allocate_sets_descriptors",
                 "Mmtk.Map32.inv_init", "Mmtk.Map32.inv_allocate", "Mmtk.Map32.inv_free", "Mmtk.Map32.inv_freeAll",
@@ -57,19 +58,37 @@ class Spec(unit.UnitSpec):
                 "Mmtk.Map32.freeRun_eq_strong", "Mmtk.Map32.finalize_fl", "Mmtk.Map32.alloc_full", "Mmtk.Map32.freeRun_full",
                 "Mmtk.Map32.freeAll_spec_gen", "Mmtk.Map32.invX_init", "Mmtk.Map32.invX_allocate",
                 "Mmtk.Map32.invX_free", "Mmtk.Map32.invX_freeAll", "Mmtk.Map32.history_invX",
-                "Mmtk.Map32.alloc_fails_exact", "Mmtk.Map32.history_alloc_fails_exact"]
+                "Mmtk.Map32.alloc_fails_exact", "Mmtk.Map32.history_alloc_fails_exact",
+                # page-resource layer (Props/C29PR.lean): every space's own head is the head of the list of the regions it owns
+                "Mmtk.Map32.pinv_init", "Mmtk.Map32.pinv_grow", "Mmtk.Map32.grow_ok", "Mmtk.Map32.pinv_release",
+                "Mmtk.Map32.release_isSome", "Mmtk.Map32.pinv_releaseAll", "Mmtk.Map32.releaseAll_isSome",
+                "Mmtk.Map32.pr_history_inv", "Mmtk.Map32.pr_history_no_panic", "Mmtk.Map32.pr_history_inv_init",
+                "Mmtk.Map32.head_is_list_head", "Mmtk.Map32.pr_history_walk", "Mmtk.Map32.pr_history_owned_regions"]
     component = "map32"
-    relation = "Mmtk.Map32.* ≙ util::heap::layout::map32::Map32 (+ run-level behaviour of util::freelist) via verif::layout::map32"
+    relation = ("Mmtk.Map32.* ≙ util::heap::layout::map32::Map32 (+ run-level behaviour of util::freelist) via verif::layout::map32; "
+                "Mmtk.Map32.PR.{grow,release,releaseAll} ≙ util::heap::pageresource::CommonPageResource::{grow_discontiguous_space, "
+                "release_discontiguous_chunks, release_all_chunks} over one shared private Map32 via verif::layout::dpr")
     assumptions = ["histories follow the callers' protocol (`Pre`): allocate with k >= 1 and head = 0 or the current head of a list; "
                    "free of the start of an allocated region; free_all from 0 or a chunk on a list of at most 4097 regions (the "
                    "model's two free_all loops are fuel-bounded at 4096; the Rust loops are not)",
                    "the region map is modelled at run level (partition into runs + free-list order); the bit-level table is C26's",
-                   "single-threaded use (Map32's own mutex); global SFT_MAP = 32-entry space map (default layout), cleared harmlessly"]
+                   "single-threaded use (Map32's own mutex); global SFT_MAP = 32-entry space map (default layout), cleared harmlessly",
+                   "page-resource layer: histories follow `PPre` (grow with k >= 1; release of a region the space owns; release_all of a "
+                   "space owning at most 4097 regions); that the head passed to allocate_contiguous_chunks is 0 or a list head is now a "
+                   "CONSEQUENCE of the invariant (PInv.head_ok), not an assumption",
+                   "whole-GC part: 4 (quick) / 12 (thorough) programs under `cfg layout compressed` (real Map32 as VM_MAP, real page "
+                   "resources of the plan's spaces); the statement is evaluated on `regions` (lists walked from every page resource's "
+                   "own head), the objects known to be live, and the available-chunk count"]
     rule = ("histories of 4..40 ops on a private Map32 finalised over chunks 100..131: allocate_contiguous_chunks for 1..4 "
             "spaces (own descriptor, own region list; sizes 1..12, exhaustion included), free_contiguous_chunks of list heads / "
             "middles / tails, free_all_chunks from any region of a list, walks of every list and descriptor/avail dumps after "
             "every op; malformed stream (debug profile): double free of a free run start, ops after the panic. non-trivial = "
-            "at least one free of a middle/tail region or an exhausted allocation; distinct = distinct (history, outputs)")
+            "at least one free of a middle/tail region or an exhausted allocation; distinct = distinct (history, outputs). "
+            "component `dpr`: 1..4 CommonPageResources over one private Map32 (chunks 100..131), histories of 4..35 grow (1..33 chunks) / "
+            "release of the head (2 in 5), tail, middle region / release_all / state; after EVERY op: every space's real head, the "
+            "list walked from it (start:chunks:prev), all descriptors, avail; malformed (debug): double release. whole-GC: large "
+            "objects of 2..4 chunks allocated and dropped head/tail/middle-first under GenImmix, SemiSpace, MarkSweep, Immix "
+            "(thorough: + GenCopy, StickyImmix, MarkCompact, PageProtect) with the compressed-pointer layout")
 
     def gen(self, rng, tier, debug):
         n = 400 if tier == "quick" else 20000
@@ -120,14 +139,17 @@ class Spec(unit.UnitSpec):
                     l = sim.lists.get(s, [])
                     ops.append(f"map32 walk {l[0] if l else 0}")
             cases.append(Case(ops))
-        return cases
+        # the page-resource layer: CommonPageResource heads over one private Map32 (component `dpr`)
+        return cases + layoutlib.dpr_gen(rng, 300 if tier == "quick" else 15000, debug)
 
     def corpus(self, debug):
-        return [Case(["map32 new", "map32 alloc 4 3 0", "map32 alloc 4 2 100", "map32 alloc 8 5 0", "map32 alloc 4 1 103",
+        return layoutlib.DPR_CORPUS + [Case(["map32 new", "map32 alloc 4 3 0", "map32 alloc 4 2 100", "map32 alloc 8 5 0", "map32 alloc 4 1 103",
                       "map32 walk 110", "map32 walk 105", "map32 free 103", "map32 walk 110", "map32 alloc 8 2 105",
                       "map32 walk 103", "map32 freeall 100", "map32 walk 103", "map32 alloc 4 40 0", "map32 alloc 4 21 0", "map32 state"])]
 
     def oracle(self, case, impl_out):
+        if case.ops and case.ops[0].startswith("dpr "):
+            return layoutlib.dpr_oracle(case, impl_out, want=("pr", "map32", "dpr"))
         try:
             return self._oracle(case, impl_out)
         except Exception as e:       # output that is neither a result nor a panic line
@@ -234,26 +256,32 @@ class Spec(unit.UnitSpec):
         return runs
 
     def nontrivial(self, case, out):
+        if case.ops and case.ops[0].startswith("dpr "):
+            return layoutlib.dpr_nontrivial(case, out)
         return any(o.startswith("0 ") for o in out) or sum(1 for o in case.ops if " free" in o) >= 2
 
     def summarize(self, cases, outs):
         h, k = {}, {}
+        pr = {}
+        layoutlib.dpr_summarize(cases, outs, h, pr)
         for c, o in zip(cases, outs):
             for op, out in zip(c.ops, o):
+                if op.startswith("dpr "):
+                    continue
                 t = op.split()[1]
                 h[t] = h.get(t, 0) + 1
                 if t == "alloc":
                     r = "exhausted" if out.startswith("0 ") else "panic" if out.startswith("panic") else "ok"
                     k[r] = k.get(r, 0) + 1
-        return {"op": h, "alloc_outcome": k}
+        return {"op": h, "alloc_outcome": k, "page_resource": pr}
 
 
 META = {
-    "text": 'Executable Lean model of Map32 (run-level region map with first-fit free-list order, prev/next links, descriptors, avail) compared exactly with a private Map32 on alloc/free/free-all histories for several spaces (heads, middles, tails, exhaustion, coalescing); the property statement (regions disjoint, descriptors exact, links exact, avail exact) is evaluated on the implementation after every op. Lean: the inductive invariant Inv (regions_disjoint, descriptor_exact, links_exact, avail_exact + the run-level free-list invariant) is proved for the finalised state and preserved by allocate / free / free_all; history_inv, history_no_panic (no assertion of the code fires on a protocol-respecting history) and the four user-facing corollaries follow by induction over operation lists; alloc_fails_exact: an allocation returns 0 only when no run of k free chunks exists.',
+    "text": 'Page-resource layer added: Lean model PR (per-space head_discontiguous_region over the shared Map32; grow / release / release_all transcribed from pageresource.rs) with the invariant PInv proved over all protocol-respecting histories (head_is_list_head, pr_history_walk: the walk from the REAL head visits exactly the regions the space owns; pr_history_no_panic) and a decide-witness that reading the successor after the free loses the list; exact differential on several CommonPageResources over one private Map32 (component dpr) + statement oracle after every op; real GC runs under the compressed-pointer layout (Map32 as VM_MAP) with region lists walked from every space\'s own head, checked against live objects and the available-chunk count. Executable Lean model of Map32 (run-level region map with first-fit free-list order, prev/next links, descriptors, avail) compared exactly with a private Map32 on alloc/free/free-all histories for several spaces (heads, middles, tails, exhaustion, coalescing); the property statement (regions disjoint, descriptors exact, links exact, avail exact) is evaluated on the implementation after every op. Lean: the inductive invariant Inv (regions_disjoint, descriptor_exact, links_exact, avail_exact + the run-level free-list invariant) is proved for the finalised state and preserved by allocate / free / free_all; history_inv, history_no_panic (no assertion of the code fires on a protocol-respecting history) and the four user-facing corollaries follow by induction over operation lists; alloc_fails_exact: an allocation returns 0 only when no run of k free chunks exists.',
     "note": 'Trusted: hand-written model, sampling differential, add-only hooks (private Map32, prev_link accessor, global SFT map initialised).',
     "technique": 'Lean 4 proof (inductive invariant over all protocol-respecting histories of the run-level Map32 model) + exact differential + statement oracle',
 }
 
 
 def main(argv=None):
-    return unit.main(Spec(), argv)
+    return layoutlib.multi_main([Spec()], argv, extra=layoutlib.gc_part("C29", ("pr:", "map32:", "gc:")))
